@@ -200,8 +200,29 @@ func modeUfsIO(tier string, args []string) {
 			continue
 		}
 		iounit := f.Fid.Iounit
+		// far offsets: a read at or beyond 2^32 of a file shorter than that returns no data (the 64-bit offset
+		// travels whole), in both directions of the codec
+		if c%4 == 1 {
+			farOK := true
+			for _, off := range []uint64{1 << 32, 1<<32 + 5, 1<<40 + uint64(flen/2), 1<<62 + 1} {
+				b, err := s.clnt.Read(f.Fid, off, 16)
+				if err != nil || len(b) != 0 {
+					farOK = false
+				}
+			}
+			emit("IOFAR %d %d %d SAME %d", msize, b2i(dotu), flen, b2i(farOK))
+			stat("ufsio.far_offset_cases", 1)
+		}
 		// several goroutines read one open file at the same time (io.ReaderAt allows it): positional reads
 		if flen > 64 && c%3 == 0 {
+			// ... after one read that the server refused (the file behind a second open fid is gone): a refused
+			// call must not disturb the calls that follow
+			if gone, err := s.clnt.FOpen(name+".other", go9p.OREAD); err == nil {
+				_ = os.Rename(other, other+".away")
+				_, _ = s.clnt.Read(gone.Fid, 0, 8)
+				_ = os.Rename(other+".away", other)
+				_ = gone.Close()
+			}
 			var wg sync.WaitGroup
 			var bad int32
 			for g := 0; g < 6; g++ {
